@@ -1,0 +1,42 @@
+//go:build verif
+
+package xmssjs
+
+// Contracts for the deductive verifier in /verif (govc).  Comment-only file, compiled only with the
+// build tag `verif`; it adds no symbol.
+
+//@ pred has0x(s) := len(s) >= 2 && s[0] == 48 && s[1] == 120
+//@ pred hexOK(v, n) := len(v) == n && forall i_ :: 0 <= i_ && i_ < n ==> spec.ishexdigit(v[i_])
+//@ pred hexAny(v) := len(v) % 2 == 0 && forall i_ :: 0 <= i_ && i_ < len(v) ==> spec.ishexdigit(v[i_])
+//@ pred notHex(v) := len(v) % 2 != 0 || exists i_ :: 0 <= i_ && i_ < len(v) && !spec.ishexdigit(v[i_])
+//@ pred hb(v, k) := 16*spec.hexval(v[2*k]) + spec.hexval(v[2*k+1])
+
+//@ func clearPrefix0x
+//@   props C16
+//@   ensures has0x(data) ==> len(result) == len(data) - 2 && result[0:len(result)] == data[2:len(data)]
+//@   ensures !has0x(data) ==> len(result) == len(data) && result[0:len(result)] == data[0:len(data)]
+
+//@ func IsValidXMSSAddress
+//@   props C16
+//@   ensures[C16] !has0x(address) && hexOK(address, 40) ==> (result <==> (hb(address, 0) / 16 == 0 && hb(address, 1) / 16 == 0))
+//@   ensures[C16] has0x(address) && hexOK(address[2:], 40) ==> (result <==> (hb(address[2:], 0) / 16 == 0 && hb(address[2:], 1) / 16 == 0))
+//@   ensures[C16] (!has0x(address) && notHex(address)) || (has0x(address) && notHex(address[2:])) ==> !result
+
+//@ func GetXMSSAddressFromPK
+//@   props C16
+//@   panics "Address format type not supported"
+//@   ensures[C16] !has0x(pk) && hexOK(pk, 134) ==> len(result) == 40 && result[0] == spec.hexchar(hb(pk, 0) / 16) && result[1] == spec.hexchar(hb(pk, 0) % 16) && result[2] == spec.hexchar(hb(pk, 1) / 16) && result[3] == spec.hexchar(hb(pk, 1) % 16) && result[4] == 48 && result[5] == 48 && forall q :: 0 <= q && q < 17 ==> result[6+2*q] == spec.hexchar(spec.shake(256, spec.unhex(pk, 134), 67, 15+q) / 16) && result[7+2*q] == spec.hexchar(spec.shake(256, spec.unhex(pk, 134), 67, 15+q) % 16)
+//@   ensures[C16] has0x(pk) && hexOK(pk[2:], 134) ==> len(result) == 40 && result[0] == spec.hexchar(hb(pk[2:], 0) / 16) && result[1] == spec.hexchar(hb(pk[2:], 0) % 16) && result[2] == spec.hexchar(hb(pk[2:], 1) / 16) && result[3] == spec.hexchar(hb(pk[2:], 1) % 16) && result[4] == 48 && result[5] == 48 && forall q :: 0 <= q && q < 17 ==> result[6+2*q] == spec.hexchar(spec.shake(256, spec.unhex(pk[2:], 134), 67, 15+q) / 16) && result[7+2*q] == spec.hexchar(spec.shake(256, spec.unhex(pk[2:], 134), 67, 15+q) % 16)
+//@   ensures[C16] (!has0x(pk) && notHex(pk)) || (has0x(pk) && notHex(pk[2:])) ==> len(result) == 0
+
+//@ func XMSSVerify
+//@   props C16
+//@   panics "invalid signature size. Height<=254"
+//@   panics "invalid signature type"
+//@   panics "Invalid signature size"
+//@   panics "For BDS traversal, H - K must be even, with H > K >= 2!"
+//@   ensures[C16] !has0x(signature) && !has0x(pk) && hexAny(signature) && hexOK(pk, 134) ==> result == purefn("xmss.Verify", "r0", message, unhex(signature), fixed(unhex(pk)))
+//@   ensures[C16] has0x(signature) && !has0x(pk) && hexAny(signature[2:]) && hexOK(pk, 134) ==> result == purefn("xmss.Verify", "r0", message, unhex(signature[2:]), fixed(unhex(pk)))
+//@   ensures[C16] !has0x(signature) && has0x(pk) && hexAny(signature) && hexOK(pk[2:], 134) ==> result == purefn("xmss.Verify", "r0", message, unhex(signature), fixed(unhex(pk[2:])))
+//@   ensures[C16] has0x(signature) && has0x(pk) && hexAny(signature[2:]) && hexOK(pk[2:], 134) ==> result == purefn("xmss.Verify", "r0", message, unhex(signature[2:]), fixed(unhex(pk[2:])))
+//@   ensures[C16] (!has0x(signature) && notHex(signature)) || (has0x(signature) && notHex(signature[2:])) || (!has0x(pk) && notHex(pk)) || (has0x(pk) && notHex(pk[2:])) ==> !result
